@@ -130,9 +130,25 @@ def ILine.toLine : ILine ε β → Line ε β
 /-- the file table -/
 abbrev FS (ε β : Type) := List (String × List (ILine ε β))
 
-def FS.get (fs : FS ε β) (p : String) : Option (List (ILine ε β)) := (fs.find? (·.1 == p)).map (·.2)
+/-- what the operating system does with a path: `.` and empty components vanish, `x/..` cancels
+    (the generated trees have no symbolic links).  Only the *file system* normalises; chibicc's own
+    tables (`pragma_once`, `include_guards`, the cache) are keyed by the spelling. -/
+def normComponents : List String → List String → List String
+  | acc, [] => acc.reverse
+  | acc, c :: cs =>
+    if c == "" || c == "." then normComponents acc cs
+    else if c == ".." then
+      match acc with
+      | a :: acc' => if a == ".." then normComponents (c :: acc) cs else normComponents acc' cs
+      | [] => normComponents [c] cs
+    else normComponents (c :: acc) cs
+
+def normPath (p : String) : String :=
+  (if isAbs p then "/" else "") ++ "/".intercalate (normComponents [] (p.splitOn "/"))
+
+def FS.get (fs : FS ε β) (p : String) : Option (List (ILine ε β)) := (fs.find? (·.1 == normPath p)).map (·.2)
 /-- `file_exists` -/
-def FS.has (fs : FS ε β) (p : String) : Bool := fs.any (·.1 == p)
+def FS.has (fs : FS ε β) (p : String) : Bool := fs.any (·.1 == normPath p)
 
 /-- state of preprocess2 with includes -/
 structure IState (β : Type) where
